@@ -285,3 +285,83 @@ package yqlib
 //@   loop 2:
 //@     invariant len(n.Content) == n0 + rangeidx() && forall(j, 0, n0, n.Content[j] == old(n.Content[j]))
 //@     invariant forall(j, n0, len(n.Content), n.Content[j] != nil && fresh(n.Content[j]) && n.Content[j].Parent == n)
+
+// ---------------------------------------------------------------------------------------------
+// operator_delete.go (continued)
+//
+// deleteFromMap: k is a logical variable — the position of the pair whose key text equals the text of the
+// path element, or -1 when there is none (key texts are distinct in a well-formed map). The contract is
+// proved for every k, i.e. by cases.
+
+//@ func deleteFromMap
+//@   props C03 C07 C11
+//@   ghost k
+//@   let p = sprintv(childPath)
+//@   let len0 = len(old(node.Content))
+//@   requires node != nil
+//@   assume @pairs len(node.Content) % 2 == 0 && forall(i, 0, len(node.Content), node.Content[i] != nil)
+//@   requires @k-is-the-match (k == -1 || (0 <= k && k < len(node.Content) && k % 2 == 0 && node.Content[k].Value == p)) && forall(i, 0, len(node.Content), implies(i % 2 == 0 && i != k, node.Content[i].Value != p))
+//@   modifies node.Content
+//@   ensures @length len(node.Content) == len0 - 2*b2i(k >= 0)
+//@   ensures @removes-exactly-pair-k forall(j, 0, len(node.Content), node.Content[j] == old(node.Content[j + 2*b2i(0 <= k && k <= j)]))
+//@   loop 1:
+//@     invariant @bounds 0 <= index && index <= len(contents) && index % 2 == 0
+//@     invariant @contents-stable contents == old(node.Content) && forall(j, 0, len(contents), contents[j] == old(node.Content[j]))
+//@     invariant @len len(newContents) == index - 2*b2i(0 <= k && k < index)
+//@     invariant @prefix forall(j, 0, len(newContents), newContents[j] == contents[j + 2*b2i(0 <= k && k <= j)])
+//@     decreases len(contents) - index
+
+// ---------------------------------------------------------------------------------------------
+// read-only helpers (lib.go, candidate_node.go): bodies checked against "modifies nothing"
+
+//@ pred nodeList(l) = l != nil && forall(i, 0, len(l), isNode(listAt(l, i)) && nodeAt(l, i) != nil)
+
+//@ func KindString
+//@   props C11
+
+//@ func parseInt
+//@   props C11 C16
+//@   flags allowdead       // the range check is dead code where int is 64 bits wide
+//@   ensures (result1 == nil) == intOk(numberString)
+//@   ensures implies(result1 == nil, result0 == intOf(numberString))
+
+//@ func (*CandidateNode).GetDocument
+//@   props C10 C11
+//@   requires n != nil
+
+//@ func (*CandidateNode).GetFilename
+//@   props C10 C11
+//@   requires n != nil
+
+//@ func (*CandidateNode).GetFileIndex
+//@   props C10 C11
+//@   requires n != nil
+
+//@ func (*CandidateNode).getParsedKey
+//@   props C16 C11
+//@   requires n != nil
+//@   ensures @map-key implies(n.IsMapKey, result == iface(n.Value))
+//@   ensures @no-key (result == nil) == (!n.IsMapKey && n.Key == nil)
+//@   ensures @string-key implies(!n.IsMapKey && n.Key != nil && n.Key.Tag == "!!str", result == iface(n.Key.Value))
+//@   ensures @index implies(!n.IsMapKey && n.Key != nil && n.Key.Tag != "!!str" && intOk(n.Key.Value), result == iface(intOf(n.Key.Value)))
+
+//@ func (*CandidateNode).GetPath
+//@   props C16 C11
+//@   requires n != nil
+//@   ensures @non-empty-when-keyed implies(n.IsMapKey || n.Key != nil, len(result) >= 1)
+
+//@ func (*CandidateNode).GetNicePath
+//@   props C11
+//@   requires n != nil
+
+//@ func NodeToString
+//@   props C11
+
+//@ func NodesToString
+//@   props C11
+//@   requires nodeList(collection)
+
+//@ func NodeContentToString
+//@   props C11
+//@   requires node != nil
+//@   assume forall(i, 0, len(node.Content), node.Content[i] != nil)
